@@ -180,7 +180,7 @@ impl<'arena, 'input: 'arena> Lexer<'arena, 'input> {
     // This is crucial for multi-word keywords like "if to say" and "small pass".
     // The function checks if the next word matches the expected one,
     // and only consumes it if:
-    // 1. It's followed by a non-alphabetic character (prevents partial matches)
+    // 1. It's followed by a byte that cannot continue an identifier (prevents partial matches)
     // 2. We have enough input left
     #[inline]
     fn try_consume_word(&mut self, word: &str) -> bool {
@@ -194,7 +194,8 @@ impl<'arena, 'input: 'arena> Lexer<'arena, 'input> {
         let end = beg + word.len();
         if end <= len
             && &self.src[beg..end] == word.as_bytes()
-            && (end == len || !Self::is_alpha_or_underscore(self.src[end]))
+            && (end == len
+                || !(Self::is_alpha_or_underscore(self.src[end]) || self.src[end].is_ascii_digit()))
         {
             self.pos = end;
             return true;
